@@ -259,27 +259,26 @@ def frontends(run, rng, n):
             hname, holder = w.writer()
             w.api(hname, "delete", "h")
             w.api(hname, "add", "h")
-            w.actor(hname)
-            holder.update_document(key=u"h", body=u"x")
+            w.guarded(hname, "update_document", lambda: holder.update_document(key=u"h", body=u"x"))
             w.nw += 1
             aname = "w%d" % w.nw
             w.writers.append(aname)
             pending = [("delete", "a1"), ("add", "a1"), ("delete", "a2"), ("add", "a2")]
-            w.actor(aname)
-            aw = writing.AsyncWriter(_IndexProxy(w, aname, pending), delay=0.01)
-            aw.update_document(key=u"a1", body=u"x")
-            aw.update_document(key=u"a2", body=u"x")
-            aw.commit()                 # lock is held: retries in its own thread
+            # (a call that raises becomes an 'apierror' event, which no action of the specification allows)
+            ok, aw = w.guarded(aname, "AsyncWriter", lambda: writing.AsyncWriter(_IndexProxy(w, aname, pending), delay=0.01))
+            if ok:
+                w.guarded(aname, "AsyncWriter.update_document", lambda: aw.update_document(key=u"a1", body=u"x"))
+                w.guarded(aname, "AsyncWriter.update_document", lambda: aw.update_document(key=u"a2", body=u"x"))
+                w.guarded(aname, "AsyncWriter.commit", aw.commit)      # lock is held: retries in its own thread
             time.sleep(rng.choice([0.0, 0.03]))
-            w.actor(hname)
-            holder.commit(merge=False)
-            aw.join(60)
+            w.guarded(hname, "commit", lambda: holder.commit(merge=False))
+            if ok and aw.is_alive():
+                aw.join(60)
             # BufferedWriter holds the lock for its life time
             w.nw += 1
             bname = "w%d" % w.nw
             w.writers.append(bname)
-            w.actor(bname)
-            bw = writing.BufferedWriter(w.ix, period=None, limit=100)
+            okb, bw = w.guarded(bname, "BufferedWriter", lambda: writing.BufferedWriter(w.ix, period=None, limit=100))
             w.nw += 1
             cname = "w%d" % w.nw
             w.writers.append(cname)
@@ -289,8 +288,8 @@ def frontends(run, rng, n):
                 w.log.emit("apierror", call="writer-while-buffered-writer-open", err="NoLockError")
             except LockError:
                 pass
-            w.actor(bname)
-            bw.close()
+            if okb:
+                w.guarded(bname, "BufferedWriter.close", bw.close)
             name = w.new_reader_name()
             ok, s = w.guarded(name, "searcher", w.ix.searcher)
             if ok:
